@@ -7,6 +7,7 @@ package main
 
 import (
 	"fmt"
+	"sort"
 	"strings"
 	"time"
 
@@ -230,7 +231,69 @@ func replayC05(env *Env) {
 // c05Stress: the pool without gates on very long streams of one-record batches (a window of a few nanoseconds
 // between two steps of a worker is met once in 10^4..10^5 batches).  Every batch number must come out once,
 // carrying what the one-worker run gives for it.
+// c05MultiFile: several input files read one after the other (ReadSequencesBatchFromFiles, what every command does
+// with more than one file argument).  The batches of one file reach the renumbering stage in any order (parallel
+// header parsing): whatever that order, the stream must carry the records of file 1 in file order, then those of
+// file 2, ... once sorted on the batch numbers, every batch number exactly once.
+func c05MultiFile(env *Env) {
+	for round := 0; round < 60; round++ {
+		nfiles := 2 + env.rng.Intn(3)
+		files := make([][]obiiter.BioSequenceBatch, nfiles)
+		arrivals := make([][]int, nfiles)
+		names := make([]string, nfiles)
+		want := []string{}
+		for f := range files {
+			nb := 1 + env.rng.Intn(5)
+			sizes := make([]int, nb)
+			for k := range sizes {
+				sizes[k] = 1 + env.rng.Intn(3)
+			}
+			files[f] = c05Batches(sizes)
+			for _, b := range files[f] {
+				for _, s := range b.Slice() {
+					s.SetId(fmt.Sprintf("f%d_%s", f, s.Id()))
+					want = append(want, s.Id())
+				}
+			}
+			arrivals[f] = env.rng.Perm(nb)
+			names[f] = fmt.Sprintf("file%d", f)
+		}
+		reader := func(name string, _ ...obiformats.WithOption) (obiiter.IBioSequence, error) {
+			var f int
+			fmt.Sscanf(name, "file%d", &f)
+			return source(files[f], arrivals[f]), nil
+		}
+		cl := "multifile"
+		it := obiformats.ReadSequencesBatchFromFiles(names, reader, 1)
+		got, ok := drainBatches(it)
+		if !ok {
+			env.fail("C05.files.hang", cl, fmt.Sprintf("reading %d files (batches arriving as %v) did not terminate", nfiles, arrivals), map[string]any{"arrivals": arrivals})
+			return
+		}
+		sort.SliceStable(got, func(i, j int) bool { return got[i].Order() < got[j].Order() })
+		ids := []string{}
+		orders := []int{}
+		for _, b := range got {
+			orders = append(orders, b.Order())
+			for _, s := range b.Slice() {
+				ids = append(ids, s.Id())
+			}
+		}
+		dense := true
+		for i, o := range orders {
+			dense = dense && o == i
+		}
+		if !dense || strings.Join(ids, " ") != strings.Join(want, " ") {
+			env.fail("C05.files.order", cl, fmt.Sprintf("%d files whose batches reach the renumbering stage as %v: batch numbers %v, records %v; expected the files one after the other, each in file order: %v",
+				nfiles, arrivals, orders, ids, want), map[string]any{"arrivals": arrivals})
+		} else {
+			env.ok(cl)
+		}
+	}
+}
+
 func c05Stress(env *Env) {
+	c05MultiFile(env)
 	n := env.optInt("stress", 200000)
 	rounds := env.optInt("stressrounds", 2)
 	mk := c05Workers()["revcomp_copy"]
